@@ -13,6 +13,7 @@ import (
 	"log/slog"
 	"math/bits"
 	"os"
+	"runtime/debug"
 	"strings"
 )
 
@@ -278,11 +279,15 @@ func NoPanic(label string, f func()) (ok bool) {
 			}
 			ok = false
 			Fail(label + ":" + sanitize(PanicString(r)))
+			PrintStack()
 		}
 	}()
 	f()
 	return true
 }
+
+// PrintStack prints the current goroutine's stack natively (for triage). primitive (no-op under gsx).
+func PrintStack() { fmt.Fprintf(out, "VERIF-STACK\n%s\n", debug.Stack()) }
 
 // Panics runs f and reports whether it panicked (without failing).
 func Panics(f func()) (panicked bool) {
